@@ -47,7 +47,10 @@ def chain(seed, k, tier):
 
 def family(seed, tier):
     n = 5 if tier == "quick" else 20
-    return [(lambda s: (s.s["name"], s.doc()))(chain(seed, k, tier)) for k in range(n)]
+    docs = [(lambda s: (s.s["name"], s.doc()))(chain(seed, k, tier)) for k in range(n)]
+    g = scen.peg_window_chain(seed, name="c16-pegwin", dups=False)
+    docs.append((g.s["name"], g.doc()))
+    return docs
 
 
 def main():
